@@ -249,8 +249,6 @@ def _inlinable_call(p: Program, unit: FuncUnit, st: ast.stmt):
         return None
     if any(isinstance(a, ast.Starred) for a in c.args) or any(k.arg is None for k in c.keywords):
         return None
-    if not all(_simple_arg(a) for a in c.args) or not all(_simple_arg(k.value) for k in c.keywords):
-        return None
     a = m.node.args
     if a.vararg or a.kwarg or a.kwonlyargs or getattr(a, 'posonlyargs', None):
         return None
@@ -258,12 +256,25 @@ def _inlinable_call(p: Program, unit: FuncUnit, st: ast.stmt):
     if len(c.args) > len(params):
         return None
     table: Dict[str, ast.AST] = {}
+    prelude: List[ast.stmt] = []
+
+    def bind(name: str, arg: ast.AST) -> None:
+        if _simple_arg(arg):
+            table[name] = arg
+            return
+        # an argument that is computed (`self._expand(worklist.take(), ...)`): evaluated once, before the spliced body
+        tmp = f'{name}__arg_{m.name.strip("_")}'
+        asg = ast.Assign(targets=[ast.Name(id=tmp, ctx=ast.Store())], value=arg, type_comment=None)
+        ast.copy_location(asg, st)
+        ast.fix_missing_locations(asg)
+        prelude.append(asg)
+        table[name] = ast.copy_location(ast.Name(id=tmp, ctx=ast.Load()), st)
     for name, arg in zip(params, c.args):
-        table[name] = arg
+        bind(name, arg)
     for k in c.keywords:
         if k.arg not in params or k.arg in table:
             return None
-        table[k.arg] = k.value
+        bind(k.arg, k.value)
     defaults = dict(zip(reversed(params), reversed(a.defaults)))
     for name in params:
         if name not in table:
@@ -281,7 +292,7 @@ def _inlinable_call(p: Program, unit: FuncUnit, st: ast.stmt):
             return None
     if len(body) < 2:
         return None          # thin wrappers keep their identity (accessor-like helpers are handled symbolically)
-    return m, body, table
+    return m, body, table, prelude
 
 
 def _names_stored(stmts: List[ast.stmt]) -> set:
@@ -308,10 +319,10 @@ def _inline_block(p: Program, unit: FuncUnit, stmts: List[ast.stmt], caller_name
     for st in stmts:
         hit = _inlinable_call(p, unit, st) if depth < 2 and (only is None or id(st) in only) else None
         if hit is not None:
-            m, body, table = hit
+            m, body, table, prelude = hit
             stored = _names_stored(body)
             renames = {n: f'{n}__{m.name.strip("_")}' for n in stored if n in caller_names}
-            new_body = []
+            new_body = list(prelude)
             for b in body:
                 nb = _Rename(table, renames).visit(copy.deepcopy(b))
                 ast.copy_location(nb, st)
